@@ -190,6 +190,18 @@ def run(R):
         W = {'class': 'exotic-tree', 'cells': len(cells), 'boc': rc.encode_boc([t]) if len(cells) < 60 else None}
         both_routes(R, t, W)
         has_exotic = any(c.type != rc.ORD for c in cells)
+        if i % 10 == 0 and t.refs:
+            # the top cell once more through the public constructor, its references handed over as a tuple / iterator / generator / map: a sequence of cells in
+            # whatever container (the M-INV hook compares mask, hashes and depths of what comes out with the reference model)
+            from pytoniq_core.boc import Cell as _Cell
+            kids = [bridge.to_lib(x) for x in t.refs]
+            for fname, mk in (('tuple', lambda: tuple(kids)), ('iterator', lambda: iter(kids)), ('generator', lambda: (k for k in kids)), ('map', lambda: map(lambda k: k, kids))):
+                st, c = mon.call(lambda: _Cell(bridge.tvm_bits(t.bits), mk(), t.type))
+                R.counters['oracle_evaluations'] += 1
+                R.count('refs_container_forms')
+                R.check(st == 'ok' and c.hash == t.hash and c.level_mask.mask == t.mask and len(c.refs) == len(kids), f'refs-given-as-{fname}-differ',
+                        f'Cell(bits, refs, type {t.type}) with its {len(kids)} references given as a {fname}: ' + (f'raised {c!r}' if st == 'exc' else f'{len(c.refs)} references, mask {c.level_mask.mask}, hash differs: {c.hash != t.hash}'),
+                        dict(W, refs_form=fname, top_type=t.type))
         R.case(mon.fp(t.hash) if has_exotic else None, sample={'cells': len(cells), 'types': sorted({c.type for c in cells}), 'mask': t.mask} if i < 3 else None)
         R.cover('merkle_nesting', max_nesting(t))
     for i in range((150 if quick else 6000) // R.nshards + 1):
